@@ -11,17 +11,24 @@ META = {
                      "interpretation of the primitives (float64, reals), the specification's value of dX_dt in slot state_index(X); rhs_progress: no NameError. "
                      "Every rhs gotranx emits during the run is translated (Python ast) and pushed through that validator; the grammar ladder the Lean parser "
                      "implements is re-extracted from ode.lark and pinned by theorem; parse trees (lark vs Lean) are compared exactly; values are compared against "
-                     "a 50-digit evaluation of the Lean reference semantics with a conditioning-aware tolerance.",
-                note=TB + "Parser soundness against an inductive grammar and Kahn-order correctness of the Impl generator are not yet theorems; the parser is tied by exact tree comparison."),
+                     "a 50-digit evaluation of the Lean reference semantics with a conditioning-aware tolerance. On the model side the chain is closed end to end: "
+                     "ParseRender.parse_render / text_denotes (the parser inverts the minimal-parenthesis printer at any nesting depth, so the text of an expression denotes it), "
+                     "Kahn.staticOrder_correct / staticOrder_complete (the model of graphlib's static_order is correct and, on acyclic graphs, total), GenValid.genRhs_valid "
+                     "(the model's generator passes checkRhs for every well-formed model, with and without unused-variable removal) and EndToEnd.rhs_end_to_end (for every "
+                     "well-formed acyclic model the generated program exists, runs and returns the specification's derivatives in the slots state_index reports). The hypotheses "
+                     "(ModelWF, round trip with the parser's real fuel, agreement of the two sorter formulations) are evaluated by the driver on every loaded model.",
+                note=TB + "The loader model is not yet proved to produce only ModelWF models (checkModelWF is evaluated per model instead); the lark engine is tied by exact tree comparison."),
     "C04": dict(technique="Lean 4 proof (index bijection, init overrides, slot soundness, order tables) + translation validation + differential run",
                 text="Theorems index_bijective / init_sound / monitor_slots / rhs_slots (unbounded) and formals_are_permutations, orders_are_permutations, argument_maps "
                      "(complete finite tables re-extracted from codegen/*.py). Every generated rhs / monitor_values / scheme is validated; index functions, init functions, "
-                     "array lengths and all 6+24 argument orders are exercised on the real modules.",
+                     "array lengths and all 6+24 argument orders are exercised on the real modules, with and without unused-variable removal (NumPy and JAX). "
+                     "GenValid.genRhs_valid / genEuler_valid: the model's generators write the result for X into slot state_index(X), every slot exactly once, for every well-formed model.",
                 note=TB + "C and JAX backends are exercised by the C02 / C03 checks with the same validators."),
     "C05": dict(technique="Lean 4 proof (euler = states + dt*rhs for validated programs) + translation validation + differential run",
                 text="Theorem C05.euler_eq_states_plus_dt_rhs: for programs passing checkRhs and checkScheme on the same model whose store is the Euler expression, "
                      "euler[i] = states[i] + dt*rhs[i] exactly, for every input and interpretation; euler_dt_zero; alias table pinned from get_scheme. The real explicit_euler "
-                     "is compared with the module's own rhs (<= 4 ulp), with the reference meaning, under every accepted name, dt in {0, tiny, large, negative}, inputs unmodified.",
+                     "is compared with the module's own rhs (<= 4 ulp), with the reference meaning, under every accepted name, dt in {0, tiny, large, negative}, inputs unmodified; "
+                     "every third model is followed in the same process by a sibling with the same names and other equations (state kept between calls). GenValid.genEuler_valid.",
                 note=TB),
     "C06": dict(technique="Lean 4 proof (guarded RL formula of the emitted store; guard always emitted) + translation validation + differential run",
                 text="Theorems eval_rl_store / rl_fallback / rl_exponential / rlStore_guarded: the emitted store evaluates to x + (|g|>delta ? f/g*(exp(g*dt)-1) : dt*f) in every "
@@ -34,7 +41,9 @@ META = {
                 note=TB + "The Impl generators mirror schemes.py; the tie is the body-text comparison and the validators."),
     "C12": dict(technique="Lean 4 proof (two validated programs for one model/layout agree; progress) + translation validation + differential run",
                 text="Theorem C12.unused_equiv_rhs: two rhs programs (with / without removal) that pass checkRhs for the same model and layout return equal values in every slot for every input; "
-                     "removed_never_read (progress). Every program generated with remove_unused is validated against the layout (which rejects counter-numbered stores); results compared bit for bit, rhs and three schemes.",
+                     "removed_never_read (progress); GenValid.genRhs_removal_invariant: on the Impl layer the two generated programs agree for every well-formed model. "
+                     "Every program generated with remove_unused is validated against the layout (which rejects counter-numbered stores); results compared bit for bit, rhs and three "
+                     "schemes, on NumPy, JAX and on two compiled C modules.",
                 note=TB),
 }
 
@@ -44,13 +53,14 @@ META.update({
                      "Lean loader model) implies that any two atoms with the same name - of any kinds, in any components - are the same definition; executable checks of the model's "
                      "loader on the documented faults. 17 kinds of single well-formedness fault are injected into generated well-formed models at random sites; the real loader + "
                      "code generator must raise, and its accept/reject class must equal the model's.",
-                note=TB + "Missing/orphan derivatives, undefined symbols and cycles are rejected by the model's loader by construction (and compared with the implementation on every fault); a general theorem 'accepted => WellFormed' covering them is not yet stated."),
+                note=TB + "Kahn.staticOrder_correct / staticOrder_complete: the sorter model returns an order exactly for acyclic dependency graphs (a cycle is the only reason for its error). "
+                          "Missing/orphan derivatives and undefined symbols are rejected by the model's loader by construction (and compared with the implementation on every fault); a general theorem 'accepted => WellFormed' for the loader model is not yet stated (checkModelWF is evaluated per model)."),
     "C09": dict(technique="Lean 4 proof (invariance under the iteration order of every dependency set; history invariant) + subprocess differential runs",
                 text="Theorems sort_iter_invariant, layout_iter_invariant, gen{Rhs,Monitor,Euler,GRL,Hybrid}_iter_invariant: for traversal orders that are permutations of the same "
                      "dependency sets the sorted order, the layout and every generated program are equal; pin deps_sorted (extracted from sort_assignments); history_invariant for "
                      "get_scheme / generate sequences. Real code: fresh subprocesses under several PYTHONHASHSEED values and after earlier calls, byte comparison of NumPy/C/JAX text "
                      "and slot layout; adversarial iteration orders injected into every dependency set in-process; the model's predicted order compared with the implementation's.",
-                note=TB + "CPython's graphlib is modelled (Topo.lean) and compared with the implementation's order on every model."),
+                note=TB + "CPython's graphlib is modelled twice (Topo.lean: a literal mirror of its records and an edge-list formulation proved correct in Kahn.lean); the two are compared by the driver on every request and with the implementation's order on every model."),
     "C10": dict(technique="Lean 4 proof (name-sorted tuples are canonical; generators are functions of them) + differential permutation runs",
                 text="Theorems sortByName_canonical / model_of_perm (a duplicate-free list sorted by name is determined by its set), code_of_equal_models, plus C09's invariance "
                      "theorems. Partial: the statement for the whole text-level loader is not proved; it is checked by running the model's loader and the real loader on block / entry / line "
@@ -59,13 +69,16 @@ META.update({
 })
 
 META.update({
-    "C02": dict(technique="Lean 4 proof (backend-independent validator soundness) + translation validation of the C text + compiled differential run",
-                text="Partial. The C function bodies are translated (C expression parser) into the same IR and pushed through the proven-sound validators checkRhs / checkMonitor / "
+    "C02": dict(technique="Lean 4 proof (typed C semantics = reference semantics for cReal expressions; backend-independent validator soundness) + translation validation of the C text + compiled differential run",
+                text="Theorems C02.cReal_sound (for every expression accepted by the executable check cReal - no operator applied to integer-typed operands only, no truncating remainder - the "
+                     "C-typed value, converted to double, is the reference meaning of the type-erased expression, for every interpretation and environment), execC_eq_exec, c_rhs_sound, "
+                     "c_monitor_sound, and the witnesses int_division_truncates / pow_int_exponent. Partial otherwise. The C function bodies are translated (C expression parser) into the same IR and pushed through the proven-sound validators checkRhs / checkMonitor / "
                      "checkScheme; the code is compiled with gcc (default mode, -Wall), index functions, NUM_* constants, init functions, rhs, monitor_values and three schemes are "
                      "called through ctypes and compared with the reference meaning; out-of-bounds writes and input modification are detected with guard slots. A disagreement is "
                      "classified by re-evaluating the translated C body at 50 digits under C typing, with integers promoted, and with floored fmod.",
-                note=TB + "No Lean theorem about C's integer/double typing yet (cNoIntArith is planned): the typing part is decided by the 50-digit C-semantics evaluator in the harness, "
-                          "not by proof. Two genuine defects are recorded as known findings (integer arithmetic on integer literals; fmod sign)."),
+                note=TB + "Every translated C body is classified by cReal in the driver, and *run* in the Lean typed C semantics (float64) and compared with the compiled gcc output at every "
+                          "sampled point (validation of the target-semantics assumption for C). Expressions outside cReal (integer arithmetic on integer literals, fmod) are the two "
+                          "recorded known findings; for them the 50-digit C-semantics evaluator of the harness classifies disagreements."),
     "C03": dict(technique="Lean 4 proof (return-array assembly + backend-independent validator soundness) + translation validation + differential run (jitted and un-jitted)",
                 text="Theorems jaxReturn_sound / arity_mismatch (the returned array has the documented length and entry i is the value stored in slot i iff the return list is range(n)), "
                      "num_return_values_extracted (each method passes the length of the array it fills), and the shared validator soundness. Every JAX function the NumPy backend offers is "
@@ -95,7 +108,7 @@ META.update({
                 text="Theorems eval_subst and rhsMatrixLoop_sound: whatever number of rounds, a returned right-hand side has one entry per derivative, mentions no intermediate and has the "
                      "derivative's value at every solution; states_order; pin max_tries_shape (bound = #intermediates + 1, raise only if intermediates remain). Real code: rhs_matrix / "
                      "jacobi_matrix evaluated at 40 digits against the reference, against the Lean expansion and symbolic derivative, and against 50-digit central differences; depths 4-60.",
-                note=TB + "Totality (the default bound always suffices for acyclic models) is checked on chains, not yet proved in general."),
+                note=TB + "EndToEnd.sortedAssignments_total: the state order exists for every acyclic model. Totality of rhsMatrix with the default bound is checked on chains, not yet proved in general."),
 })
 
 META.update({
@@ -114,7 +127,9 @@ META.update({
     "C18": dict(technique="Lean 4 proof over extracted option-forwarding tables + differential CLI runs",
                 text="Partial (level 'other'). Theorems ode2py_plumbing, ode2c_plumbing, no_option_dropped, config_keys over tables re-extracted from cli/*.py on every run: every option of a "
                      "command reaches get_code under its name. The commands are run as subprocesses (python -m gotranx) in scratch project directories over random option combinations, "
-                     "--config files and pyproject.toml; the bytes written are compared with the API output for the effective options; invalid / missing models must exit non-zero without output.",
+                     "--config files and pyproject.toml; the bytes written are compared with the API output for the effective options and with a module composed directly from "
+                     "CodeGenerator methods; invalid / missing models must exit non-zero without output. scheme_options_reach_schemes: cli.utils.add_schemes is run with a recording stub "
+                     "for every member of Scheme on every run and must hand each scheme exactly the options its function accepts, unchanged.",
                 note=TB + "typer's parsing, black's project-root discovery and the file system are outside the model. clang-format is not installed: C runs use --format none."),
     "C19": dict(technique="Lean 4 proof (renaming preserves values and scoping when injective; capture witness) + differential identifier-by-identifier runs",
                 text="Partial. Theorems eval_rename, fv_rename, wellScoped_rename (an injective renaming changes neither values nor the verdict of the scoping validator) and capture_witness. "
